@@ -174,6 +174,42 @@ PROPS = {
         "open_statements": ["the frame condition itself (no transaction step writes shared WAF state) is not a theorem about the Go "
                             "code; it is what `conc` checks"],
     },
+    "C16": {
+        "engines": [{"name": "parse", "quick": 12000, "thorough": 400000, "shards": 8}],
+        "nontrivial": lambda l, v: " cfg " in l and " => ok R{" in l,
+        "rule": "parse: structured descriptions of 1-3 rules (15% SecAction, 25% chains of 2-3 links): 1-3 targets over the "
+                "variable table (collections with plain keys incl. odd punctuation and non-ASCII bytes, /regex/ and '/regex/' "
+                "keys with escaped slashes and '|', XML/JSON xpaths, counts, exclusions of the same collection, lower-case "
+                "variable names), an operator with an argument built from delimiter-heavy tokens (quotes, backslashes, "
+                "commas, colons, pipes, backticks, tabs, UTF-8, invalid UTF-8), 0-8 actions (id, phase, msg, tag, logdata, "
+                "severity, rev, ver, t, status, maturity, skip, skipAfter, flags, a disruptive action). Each description is "
+                "rendered (1) canonically, (2) three times with random directive/action letter case, optional value "
+                "quoting, blanks after commas, extra blanks, continuation splits at random safe positions, indentation, "
+                "comment and blank lines anywhere, CRLF, and rules moved into an Included file, (3) four near-miss texts: "
+                "one delimiter (double quote, quote, comma, colon, pipe, slash, backslash, blank, ! & @ newline) deleted, "
+                "duplicated, replaced or swapped; (4) the action scanner and the SecRule-argument splitter alone on the same "
+                "material and a one-byte mutation. The rendering must compile to exactly the description (exp= field, all but "
+                "action names/log flags); every text must give the model's result; an accepted text must be read by the "
+                "reference grammar of target lists the same way. 12% of descriptions are deliberately not well-formed "
+                "(`wild`). Also every registered variable and action name against the model's tables. Non-trivial = the "
+                "configuration compiled to at least one rule.",
+        "modelled": "parseString (trimming incl. Unicode spaces, comments, backticks, continuation, end of input), "
+                    "evaluateLine (directive cut, case, quote removal, Include with recursion bound), ParseRule, "
+                    "parseActionOperator, cutQuotedString, MaybeRemoveQuotes, UnescapeQuotedString, HasRegex, "
+                    "ParseVariables, AddVariable/AddVariableNegation, ParseOperator, parseActions, appendRuleAction, "
+                    "ParseDefaultActions, mergeActions, applyParsedActions, chain linking, RuleGroup.Add id checks, the Init "
+                    "functions of 27 actions. Outside (driver answers X): operators whose factory validates its argument, "
+                    "actions setvar/ctl/exec/expirevar/initcol/setenv, macros in msg/logdata/operator arguments, regex keys "
+                    "outside a syntactically safe class, non-ASCII where Go lower-cases by rune, directives other than "
+                    "SecRule/SecAction/SecMarker/SecDefaultAction/SecRuleEngine/Include.",
+        "assumptions": ["strings.ToLower/ToUpper are modelled on ASCII only (a Kelvin sign in a directive or variable name is outside the model)",
+                        "Include reads from an in-memory fs.FS with flat names; globbing and directory handling are not modelled"],
+        "open_statements": ["C16_targets_equiv (the scanner equals the reference grammar on every byte string) is checked by the "
+                            "correspondence on every generated text and proved only on examples; the round trip of parseActions "
+                            "over index arithmetic is checked by correspondence, its normalisation lemmas are proved",
+                            "unclosed quotes in an action list are accepted with a warning by design of the code (TODO(4.x) in "
+                            "rule_parser.go); the generator's near-miss stream exercises it and the model mirrors it"],
+    },
     "C20": {
         "engines": [{"name": "fault", "script": "tools/faults.py", "quick": 1, "thorough": 1}],
         "nontrivial": lambda l, v: " none 0 " not in l,
